@@ -19,7 +19,7 @@ from ..util import result, rng_for, viol
 ID = "C19"
 RULE = (
     "exhaustive: every loss history over the ordered alphabet {1,2,3} up to length 8 (thorough; 5 quick), with and "
-    "without the initial None call the training loop makes, x patience 0..3 x min_delta {0,0.5} x monitored {train,val} "
+    "without the initial None call the training loop makes, x patience 0..3 x min_delta {0,0.5,1.0(,1.5)} x monitored {train,val} "
     "x representation {float, numpy.float32, numpy.float64, 0-d jax array}; EpochStop for epochs 0..5; real ml.train "
     "runs (TrainLoss, ValLoss, EpochStop) on a tiny model with non-improving losses. A case = one configuration with all "
     "its histories; non-trivial: >=1 history in which the reference stops; distinct by configuration. evaluations = stop() calls monitored."
@@ -44,7 +44,7 @@ def cases(tier, seed):
     out = []
     for cls in ("TrainLoss", "ValLoss"):
         for patience in range(4):
-            for md in (0.0, 0.5):
+            for md in ((0.0, 0.5, 1.0) if tier == "quick" else (0.0, 0.5, 1.0, 1.5)):  # 1.0/1.5 >= the alphabet spacing: small decreases that are not improvements
                 for rep in REPS[tier]:
                     out.append({"kind": "hist", "cls": cls, "patience": patience, "min_delta": md, "rep": rep, "maxlen": MAXLEN[tier]})
     for epochs in range(6):
